@@ -253,5 +253,11 @@ func parseHandler(args string) string {
 	if why := newSrcmap(src).located(pe.Token, false); why != "" {
 		o = "bad:" + why
 	}
+	// the rendering of the diagnostic carries the token's own line and column
+	if msg := perr.Error(); o == "good" && (!strings.HasPrefix(msg, "Parse Error: ") ||
+		!strings.HasSuffix(msg, fmt.Sprintf(", line: %d, position: %d", pe.Token.Line, pe.Token.Position)) ||
+		pe.ErrorToken() != pe.Token) {
+		o = "bad:Error() rendering " + msg + " does not carry the position of the error token"
+	}
 	return "perr " + strings.ReplaceAll(o, " ", "_") + " " + tokSx(pe.Token)
 }
